@@ -45,6 +45,12 @@ variable {σ α : Type}
 
 def readGlob : Name → Option (V (RO α)) := globLookup globals
 
+/-- is this (keyword argument) the given integer token? -/
+def isIntV {ω : Type} (v : Option (V ω)) (k : Int) : Bool :=
+  match v with
+  | some (.int i) => i == k
+  | _ => false
+
 /-- `self._read_bytes(n)` / `self._read_line()` as the model's byte source sees them -/
 def srcResult (r : Res σ) (st : RSt σ) : X (RO α) (V (RO α)) × RSt σ :=
   match r with
@@ -81,7 +87,10 @@ def h1Mcall (E : REnv σ α) (obj : V (RO α)) (m : Name) (args : List (V (RO α
       | _ => (raiseX xUnsupported, st)
     else if m = 0x7061727365 then                   -- self.parse(raw, validate=…, msgmode=…, parsebitfield=…)
       match args with
-      | [.bytes raw] => (verdictResult E .ubx raw, st)
+      | [.bytes raw] =>
+        if _kw.length == 3 && isIntV (kwArg _kw 0x76616c6964617465) 1001 && isIntV (kwArg _kw 0x6d73676d6f6465) 1002
+            && isIntV (kwArg _kw 0x70617273656269746669656c64) 1003
+        then (verdictResult E .ubx raw, st) else (raiseX xUnsupported, st)
       | _ => (raiseX xUnsupported, st)
     else if m = 0x5f6572726f7268616e646c6572 then   -- self._errorhandler(err)
       match args with
@@ -100,11 +109,15 @@ def h1Call (E : REnv σ α) (f : Name) (args : List (V (RO α))) (_kw : List (Na
     X (RO α) (V (RO α)) × RSt σ :=
   if f = 0x4e4d45415265616465722e7061727365 then    -- NMEAReader.parse
     match args with
-    | [.bytes raw] => (verdictResult E .nmea raw, st)
+    | [.bytes raw] =>
+      if _kw.length == 2 && isIntV (kwArg _kw 0x76616c6964617465) 1001 && isIntV (kwArg _kw 0x6d73676d6f6465) 1002
+      then (verdictResult E .nmea raw, st) else (raiseX xUnsupported, st)      -- validate=…, msgmode=…
     | _ => (raiseX xUnsupported, st)
   else if f = 0x5254434d5265616465722e7061727365 then  -- RTCMReader.parse
     match args with
-    | [.bytes raw] => (verdictResult E .rtcm raw, st)
+    | [.bytes raw] =>
+      if _kw.length == 2 && isIntV (kwArg _kw 0x76616c6964617465) 1001 && isIntV (kwArg _kw 0x6c6162656c6d736d) 1004
+      then (verdictResult E .rtcm raw, st) else (raiseX xUnsupported, st)      -- validate=…, labelmsm=…
     | _ => (raiseX xUnsupported, st)
   else (raiseX xUnsupported, st)
 
@@ -113,8 +126,12 @@ def h1Attr (E : REnv σ α) (obj : V (RO α)) (a : Name) (_st : RSt σ) : X (RO 
   | .host .self =>
     if a = 0x5f70726f7466696c746572 then .ok (.int E.cfg.filter)         -- _protfilter
     else if a = 0x5f70617273696e67 then .ok (.bool E.cfg.parsing)        -- _parsing
-    else if a = 0x5f76616c6964617465 ∨ a = 0x5f6d73676d6f6465 ∨ a = 0x5f70617273656266 ∨ a = 0x5f6c6162656c6d736d then
-      .ok (.int 0)                                                        -- options handed on to the parsers (inside `O`)
+    -- the options handed on to the protocol parsers: opaque tokens, so that the parser calls can be checked for
+    -- passing each option under its own keyword
+    else if a = 0x5f76616c6964617465 then .ok (.int 1001)                -- _validate
+    else if a = 0x5f6d73676d6f6465 then .ok (.int 1002)                  -- _msgmode
+    else if a = 0x5f70617273656266 then .ok (.int 1003)                  -- _parsebf
+    else if a = 0x5f6c6162656c6d736d then .ok (.int 1004)                -- _labelmsm
     else if a = 0x5f717569746f6e6572726f72 then .ok (.int E.q)           -- _quitonerror
     else if a = 0x5f6572726f7268616e646c6572 then .ok (if E.hasHandler then .host .handler else .none)   -- _errorhandler
     else if a = 0x5f6c6f67676572 then .ok (.host .logger)                -- _logger
@@ -170,15 +187,17 @@ theorem hm_read_nat2 (E : REnv σ α) (k : Nat) (s : σ) (cs : List (Name × Nat
     h1Mcall E (.host .self) 0x5f726561645f6279746573 [.int ((k : Int) + 2)] kw ⟨some s, cs⟩
       = srcResult (E.S.read (k + 2) s) ⟨some s, cs⟩ := hm_read_nat E k 2 s cs kw
 
-theorem hm_parse (E : REnv σ α) (raw : Bytes) (st : RSt σ) (kw : List (Name × V (RO α))) :
-    h1Mcall E (.host .self) 0x7061727365 [.bytes raw] kw st = (verdictResult E .ubx raw, st) := rfl
+theorem hm_parse (E : REnv σ α) (raw : Bytes) (st : RSt σ) :
+    h1Mcall E (.host .self) 0x7061727365 [.bytes raw]
+        [(0x76616c6964617465, .int 1001), (0x6d73676d6f6465, .int 1002), (0x70617273656269746669656c64, .int 1003)] st
+      = (verdictResult E .ubx raw, st) := rfl
 
 theorem ha_filter (E : REnv σ α) (st : RSt σ) : h1Attr E (.host .self) 0x5f70726f7466696c746572 st = .ok (.int E.cfg.filter) := rfl
 theorem ha_parsing (E : REnv σ α) (st : RSt σ) : h1Attr E (.host .self) 0x5f70617273696e67 st = .ok (.bool E.cfg.parsing) := rfl
-theorem ha_validate (E : REnv σ α) (st : RSt σ) : h1Attr E (.host .self) 0x5f76616c6964617465 st = .ok (.int 0) := rfl
-theorem ha_msgmode (E : REnv σ α) (st : RSt σ) : h1Attr E (.host .self) 0x5f6d73676d6f6465 st = .ok (.int 0) := rfl
-theorem ha_parsebf (E : REnv σ α) (st : RSt σ) : h1Attr E (.host .self) 0x5f70617273656266 st = .ok (.int 0) := rfl
-theorem ha_labelmsm (E : REnv σ α) (st : RSt σ) : h1Attr E (.host .self) 0x5f6c6162656c6d736d st = .ok (.int 0) := rfl
+theorem ha_validate (E : REnv σ α) (st : RSt σ) : h1Attr E (.host .self) 0x5f76616c6964617465 st = .ok (.int 1001) := rfl
+theorem ha_msgmode (E : REnv σ α) (st : RSt σ) : h1Attr E (.host .self) 0x5f6d73676d6f6465 st = .ok (.int 1002) := rfl
+theorem ha_parsebf (E : REnv σ α) (st : RSt σ) : h1Attr E (.host .self) 0x5f70617273656266 st = .ok (.int 1003) := rfl
+theorem ha_labelmsm (E : REnv σ α) (st : RSt σ) : h1Attr E (.host .self) 0x5f6c6162656c6d736d st = .ok (.int 1004) := rfl
 theorem ha_q (E : REnv σ α) (st : RSt σ) : h1Attr E (.host .self) 0x5f717569746f6e6572726f72 st = .ok (.int E.q) := rfl
 
 theorem slice_split2 (b : Bytes) (k : Nat) (h : b.length = k + 2) : slice b 0 k ++ slice b k (k + 2) = b := by
@@ -273,10 +292,12 @@ theorem parse_ubx_eq (E : REnv σ α) (hS : ExactReads E.S) (fuel : Nat) (hd : B
 
 theorem hm_line (E : REnv σ α) (s : σ) (cs : List (Name × Nat)) (kw : List (Name × V (RO α))) :
     h1Mcall E (.host .self) 0x5f726561645f6c696e65 [] kw ⟨some s, cs⟩ = srcResult (E.S.line s) ⟨some s, cs⟩ := rfl
-theorem hc_nmea (E : REnv σ α) (raw : Bytes) (st : RSt σ) (kw : List (Name × V (RO α))) :
-    h1Call E 0x4e4d45415265616465722e7061727365 [.bytes raw] kw st = (verdictResult E .nmea raw, st) := rfl
-theorem hc_rtcm (E : REnv σ α) (raw : Bytes) (st : RSt σ) (kw : List (Name × V (RO α))) :
-    h1Call E 0x5254434d5265616465722e7061727365 [.bytes raw] kw st = (verdictResult E .rtcm raw, st) := rfl
+theorem hc_nmea (E : REnv σ α) (raw : Bytes) (st : RSt σ) :
+    h1Call E 0x4e4d45415265616465722e7061727365 [.bytes raw] [(0x76616c6964617465, .int 1001), (0x6d73676d6f6465, .int 1002)] st
+      = (verdictResult E .nmea raw, st) := rfl
+theorem hc_rtcm (E : REnv σ α) (raw : Bytes) (st : RSt σ) :
+    h1Call E 0x5254434d5265616465722e7061727365 [.bytes raw] [(0x76616c6964617465, .int 1001), (0x6c6162656c6d736d, .int 1004)] st
+      = (verdictResult E .rtcm raw, st) := rfl
 
 theorem parse_nmea_eq (E : REnv σ α) (fuel : Nat) (hd : Bytes) (s : σ) (cs : List (Name × Nat)) :
     runFn (h1 E) fuel fn_UBXReader__parse_nmea [.host .self, .bytes hd] ⟨some s, cs⟩
